@@ -49,15 +49,16 @@ def _values(amp, phase):
     return [AMPS[amp] * WAVE[(f + phase) % len(WAVE)] for f in range(NFRAMES)]
 
 
-def _lis(chans):
-    """chans: [(mnem, [values])]; direct X DEPT in FEET from 1000 down by 1 per frame (an up log)."""
-    dfsr = L.dfsr([(b'DEPT', b'FEET', 4, 1, 68)] + [(m, b'MV  ', 4, 1, 68) for m, _ in chans], False, up=True, spacing=1, depth_rc=68,
-                  spacing_units=b'FEET', depth_units=b'FEET')
+def _lis(chans, xin=False):
+    """chans: [(mnem, [values])]; direct X DEPT from 1000 FEET down by 1 FOOT per frame (an up log), recorded in FEET or (xin) in tenth-inches."""
+    xu, k = (b'.1IN', 120) if xin else (b'FEET', 1)
+    dfsr = L.dfsr([(b'DEPT', xu, 4, 1, 68)] + [(m, b'MV  ', 4, 1, 68) for m, _ in chans], False, up=True, spacing=k, depth_rc=68,
+                  spacing_units=xu, depth_units=xu)
     lrs = [L.file_head_tail(128), dfsr]
     for r0 in range(0, NFRAMES, 8):
         frames = []
         for f in range(r0, min(NFRAMES, r0 + 8)):
-            frames.append(L.encode68(1000.0 - f) + b''.join(L.encode68(v[f]) for _, v in chans))
+            frames.append(L.encode68(float(k * (1000 - f))) + b''.join(L.encode68(v[f]) for _, v in chans))
         lrs.append(L.data_record(frames))
     lrs.append(L.file_head_tail(129))
     data, pos = L.physical(lrs, False, None)
@@ -65,7 +66,7 @@ def _lis(chans):
     return lis, FileIndexer.FileIndex(lis)
 
 
-def _plot(ncurves, t0, t1, m0, m1, amp, same_outp):
+def _plot(ncurves, t0, t1, m0, m1, amp, same_outp, xin=False):
     curves = [(b'AAAA', t0, m0), (b'AAAA' if same_outp else b'BBBB', t1, m1)][:ncurves]
     chans = [(b'AAAA', _values(amp, 0))]
     if ncurves == 2 and not same_outp:
@@ -73,7 +74,7 @@ def _plot(ncurves, t0, t1, m0, m1, amp, same_outp):
     film = _film()
     plot = Plot.PlotReadLIS(_table(b'FILM', film), _table(b'PRES', _pres(curves)))
     cfg = FILMCfg.FilmCfgLISRead(_table(b'FILM', film))
-    lis, index = _lis(chans)
+    lis, index = _lis(chans, xin)
     out = io.StringIO()
     fid = Mnem.Mnem(b'1   ')
     for ilp in index.genLogPasses():
@@ -116,7 +117,7 @@ def _plot(ncurves, t0, t1, m0, m1, amp, same_outp):
     return True
 
 
-def svg_curves_in_track(ncurves: int, t0: int, t1: int, m0: int, m1: int, amp: int, same_outp: bool) -> bool:
+def svg_curves_in_track(ncurves: int, t0: int, t1: int, m0: int, m1: int, amp: int, same_outp: bool, xin: bool = False) -> bool:
     """
     pre: 1 <= ncurves <= 2 and 0 <= t0 <= 3 and 0 <= t1 <= 3 and 0 <= m0 <= 3 and 0 <= m1 <= 3 and 0 <= amp <= 2
     pre: ncurves == 2 or (t1 == 0 and m1 == 0 and not same_outp)
@@ -124,6 +125,6 @@ def svg_curves_in_track(ncurves: int, t0: int, t1: int, m0: int, m1: int, amp: i
     post: _
     """
     ncurves, t0, t1, m0, m1, amp = mark.pick(ncurves, 1, 2), mark.pick(t0, 0, 3), mark.pick(t1, 0, 3), mark.pick(m0, 0, 3), mark.pick(m1, 0, 3), mark.pick(amp, 0, 2)
-    same_outp = mark.pickb(same_outp)
+    same_outp, xin = mark.pickb(same_outp), mark.pickb(xin)
     with mark.untraced():
-        return _plot(ncurves, t0, t1, m0, m1, amp, same_outp)
+        return _plot(ncurves, t0, t1, m0, m1, amp, same_outp, xin)
